@@ -1,4 +1,5 @@
 import LettreVerif.Proofs.PoolLts
+import LettreVerif.Proofs.PoolHealthy
 import LettreVerif.Proofs.TransportInv
 /-!
 # C08 — Pool reuses only healthy connections and keeps its idle set within bounds
@@ -50,6 +51,23 @@ theorem failed_probe_closes (s : St) (i c : Nat) (rest : List (Nat × Bool)) (hc
 /-- A connection on which a command failed (`abort` ran) is closed, and `recycle` never parks a
     broken connection: `finishSend` does not even take the lock for it. -/
 theorem failed_connection_closed (k : Conn) : (abortConn k).closed = true := (abortConn_closed k).1
+
+/-- **Only healthy connections are within anybody's reach — every schedule.** Under every interleaving of check-outs,
+    returns, maintenance passes, waits and shutdowns of the concurrent pool, for any number of senders, any configuration
+    and any peer behaviour: a connection that is parked in the idle set, held by a sender between its send and the return,
+    or carried by a (tokio) recycle task is neither marked broken nor closed. A connection on which a command failed, a
+    probe failed or a reply never came is closed by the thread that saw it and is never where another sender could pick it
+    up. -/
+theorem reachable_connections_are_healthy (isAsync : Bool) (maxSize minIdle sends nSenders : Nat)
+    (plans : List Plan) (es : List Ev) (s : St)
+    (hr : run (init isAsync maxSize minIdle sends nSenders plans) es = some s) :
+    (∀ l, s.idle = some l → ∀ c x, (c, x) ∈ l → (getConn s c).broken = false ∧ (getConn s c).closed = false) ∧
+    (∀ (i : Nat) (t : Sender) (c : Nat), s.senders[i]? = some t → t.holding = some c → (getConn s c).broken = false ∧ (getConn s c).closed = false) ∧
+    (∀ c, some c ∈ s.recyclers → (getConn s c).broken = false ∧ (getConn s c).closed = false) := by
+  have h := (healthy_run es _ s (valid_init ..) (excl_init isAsync maxSize minIdle sends nSenders plans) (healthy_init isAsync maxSize minIdle sends nSenders plans) hr).2.2
+  exact ⟨fun l hl c x hm => h c (occ_pos_of_parked s l hl c x hm),
+    fun i t c ht hc => h c (occ_pos_of_held s i t ht c hc),
+    fun c hc => h c (occ_pos_of_recycling s c hc)⟩
 
 /-- **The sequential transport, every history** (`Model/Transport.lean`, the model the `pool` cases compare with both
     real transports). After any sequence of `send_raw` calls on a transport that started without connections, whatever
